@@ -267,14 +267,32 @@ def o3(rep, F):
             rep.add(Finding("O3", b["path"], "no-detector", "%s does not bind the result of %s" % (name, det),
                             b["file"], b["line"]))
             continue
-        # full tag = format!("{}{}", base_tag, variant)
-        tagids = set()
+        # full tag = base tag followed by the detected letter, however the string is put together
+        # (format!("{}{}", base, v), String::from(base) + push_str(v), [base, v].concat(), ...): the locals that flow
+        # into it are the base-tag parameter and detector results only, and no literal text is added
+        plist = [p for p in (b.get("params") or []) if p.get("k") == "bind" and p.get("name") != "self"]
+        base_id = plist[0]["id"] if plist else None
+        flows, lits = {}, {}
         for n in walk(body):
             if n.get("k") == "let" and n.get("init") is not None and n["pat"].get("k") == "bind":
-                fm = [x for x in walk(n["init"]) if x.get("k") == "fmt"]
-                if fm and any(peel(a).get("k") == "local" and peel(a).get("id") in vids for a in fm[0]["args"]) \
-                        and all(isinstance(p, dict) for p in fm[0]["pieces"]):
-                    tagids.add(n["pat"]["id"])
+                flows.setdefault(n["pat"]["id"], set()).update(
+                    x["id"] for x in walk(n["init"]) if x.get("k") == "local")
+                lits.setdefault(n["pat"]["id"], set()).update(
+                    x["v"] for x in walk(n["init"]) if x.get("k") == "lit" and x.get("t") in ("str", "char") and x.get("v"))
+                for x in walk(n["init"]):
+                    if x.get("k") == "fmt":
+                        lits[n["pat"]["id"]].update(p for p in x["pieces"] if isinstance(p, str) and p)
+            if n.get("k") == "mcall" and n.get("m") in ("push_str", "push"):
+                rv = peel(n.get("recv"))
+                if isinstance(rv, dict) and rv.get("k") == "local":
+                    for a_ in n.get("args") or []:
+                        flows.setdefault(rv["id"], set()).update(x["id"] for x in walk(a_) if x.get("k") == "local")
+                        lits.setdefault(rv["id"], set()).update(
+                            x["v"] for x in walk(a_) if x.get("k") == "lit" and x.get("t") in ("str", "char") and x.get("v"))
+        tagids = set()
+        for lid, src in flows.items():
+            if (src & vids) and src <= (vids | {base_id}) and base_id in src and not lits.get(lid):
+                tagids.add(lid)
         ok_pwv = ok_ext = False
         for n in walk(body):
             if is_call(n, "SwiftField::parse_with_variant"):
